@@ -69,6 +69,10 @@ def child_main(path):
     if job.get('fork'):
         # the common multiprocessing pattern: the archive object is created once and inherited by
         # forked workers, which then use it concurrently
+        rec0 = None
+        if job.get('prestore'):
+            # the parent has already written through the object the workers inherit
+            rec0 = run_ops(klepto, archmon, a, b, root, [['set', 'parent-key', 'p-0']])
         pids = []
         for wi, wops in enumerate(job['fork']):
             pid = os.fork()
@@ -82,7 +86,7 @@ def child_main(path):
             pids.append(pid)
         for pid in pids:
             os.waitpid(pid, 0)
-        allrec = []
+        allrec = [rec0] if rec0 is not None else []
         for wi in range(len(job['fork'])):
             try:
                 with open(job['out'] + '.w%d' % wi) as f:
@@ -118,6 +122,8 @@ def run_ops(klepto, archmon, a, b, root, ops):
     for op in ops:
         o = op[0]
         r = {'op': o, 'key': op[1] if len(op) > 1 and o in ('set', 'set2', 'get', 'in') else None}
+        if o in ('del', 'popd'):
+            r['target'] = op[1]
         if o == 'set2':
             r['value'], r['key2'], r['value2'] = op[2], op[3], op[4]
         r['call'] = mono()
@@ -133,6 +139,11 @@ def run_ops(klepto, archmon, a, b, root, ops):
                 res = enc(a[dec(op[1])])
             elif o == 'in':
                 res = dec(op[1]) in a
+            elif o == 'del':
+                del a[dec(op[1])]
+                res = None
+            elif o == 'popd':
+                res = enc(a.pop(dec(op[1]), None))
             elif o == 'len':
                 res = len(a)
             elif o == 'keys':
@@ -507,7 +518,8 @@ def gen_case(rng, prop='C14', free=False):
     if free and kind in ('dir',) and rng.random() < 0.35:
         wl = 'forked-writers'
         nw = rng.choice([2, 3, 4])
-        jobs = [{'ops': [], 'fork': [[['set', 'f%d_%d' % (w, j), val('f%d' % w)] for j in range(n)] for w in range(nw)]}]
+        jobs = [{'ops': [], 'fork': [[['set', 'f%d_%d' % (w, j), val('f%d' % w)] for j in range(n)] for w in range(nw)],
+                 'prestore': rng.random() < 0.5}]
     policy = rng.choice(['random', 'random', 'sticky', 'pct'])
     history = rng.choice([0, 0, 1, 2])
     if wl == 'writer-opener' and kind == 'file' and rng.random() < 0.5:
@@ -606,6 +618,8 @@ def judge(case, outs, final):
                 # holder, or on a loaded machine, this is inconclusive - never a verdict
                 JUDGE_NOTES['c14_sqlite_busy_timeouts'] = JUDGE_NOTES.get('c14_sqlite_busy_timeouts', 0) + 1
                 continue
+            if o == 'del' and r.get('exc') == 'KeyError' and r.get('key') is None:
+                continue      # (removing a key that was never stored: KeyError is the right answer)
             if 'exc' in r and not (r['exc'] == 'KeyError' and o == 'get'):
                 mech = []
                 if o not in ('set', 'set2') and rewriting_opener and r['exc'] == 'KeyError':
@@ -815,9 +829,10 @@ def run_shard(prop, tier, seed, shard, nshards, opts):
             backend_name(b), '/cleared' if cleared else '', cnt.get('c14_dfs_distinct_schedules', 0),
             'exhausted' if exhausted else 'NOT exhausted'))
         res['violations'].extend(viol[:10])
-    IDLE_OPS = [['in', 'k'], ['get', 'k'], ['len'], ['keys'], ['items'], ['load'], ['in', 'absent'], ['get', 'base']]
+    IDLE_OPS = [['in', 'k'], ['get', 'k'], ['len'], ['keys'], ['items'], ['load'], ['in', 'absent'], ['get', 'base'],
+                ['del', 'never-stored'], ['popd', 'never-stored'], ['get', 'never-stored']]
     if shard < len(IDLE_OPS):
-        # directed: a reader that performed one read of an sqlite table archive (each read path in turn, on a key
+        # directed: a reader that performed one read - or one failing removal - on an sqlite table archive (each path in turn, on a key
         # with several history rows) and then sits idle with its handle open must not block a writer
         case = {'backend': {'kind': 'sql', 'memory': False}, 'workload': 'idle-reader', 's0': [['base', 'b0'], ['k', 'k0']],
                 'jobs': [{'ops': [['idle', 400], ['set', 'other', 'o-1'], ['set', 'other2', 'o-2']]},
